@@ -760,6 +760,56 @@ W.contract(Contract('ENFA.is_acyclic', [('self', ENFA)], ret=TBool, requires=lam
            '1': lambda e, done: items_ok(e.self, e.to_process),
            '1.0': acy_inner, '1.0.0': acy_inner, '1.1': acy_inner}))
 
+# ------------------------------------------------------------------ is_acyclic: the answer True is sound (the search is exhaustive)
+# Stated with a ghost argument: `ws` is any walk from a start state that closes a cycle for the first time at its last state (all states before
+# the last one distinct, the last one equal to an earlier one).  Proved: if such a walk exists the function does not return True.  With the
+# graph fact "a cycle is reachable from a start state  =>  such a walk exists" (shortest lasso; assumed) this is the converse of the contract above.
+SeqSt_ = TSeq(St)
+j1, j2, m_ = Consts('j1 j2 m_', IntSort())
+def lasso(A, ws):
+    n = Length(ws)
+    return And(n >= 2, A.I[ws[0]],
+               ForAll([m_], Implies(And(0 <= m_, m_ < n - 1), Exists([a], A.T[ws[m_], a, ws[m_ + 1]]))),
+               ForAll([j1, j2], Implies(And(0 <= j1, j1 < j2, j2 < n - 1), ws[j1] != ws[j2])),
+               Exists([j1], And(0 <= j1, j1 < n - 1, ws[j1] == ws[n - 1])))
+wsv = Const('wsv', SeqSt_.sort()); mv, mv2 = Consts('mv mv2', IntSort())
+PSet = Function('PrefixSet', SeqSt_.sort(), IntSort(), SetSt.sort())          # the set of the first m states of a walk
+PSET_DEF = ForAll([wsv, mv, x], Select(PSet(wsv, mv), x) == Exists([j1], And(0 <= j1, j1 < mv, wsv[j1] == x)))
+PSET_ZERO = ForAll([wsv], PSet(wsv, 0) == K(St.sort(), False))
+PSET_STEP = ForAll([wsv, mv, mv2], Implies(And(0 <= mv, mv2 == mv + 1), PSet(wsv, mv2) == Store(PSet(wsv, mv), wsv[mv], True)), patterns=[MultiPattern(PSet(wsv, mv2), PSet(wsv, mv))])
+PSET_LEMMAS = [('no state before the first one', [PSET_DEF], PSET_ZERO), ('one more state in the prefix', [PSET_DEF], PSET_STEP)]
+def item(s_, vis): return PairSV.make(_0=Sym(St, s_), _1=Sym(SetSt, vis)).term
+def pending(ws, tp): return Exists([m_], And(0 <= m_, m_ <= Length(ws) - 1, tp[item(ws[m_], PSet(ws, m_))] > 0))
+def hold(e, notyet):
+    ws, cur = e.ws.term, e.current.term
+    # bound variable = the position of the *next* state of the walk (PrefixSet(ws, k) and ws[k] are clean triggers; an argument written k + 1 is not)
+    return Exists([m_], And(1 <= m_, m_ <= Length(ws) - 1, cur == ws[m_ - 1], e.visited.term == PSet(ws, m_), notyet(ws[m_])), patterns=[PSet(ws, m_)])
+def acy2(level):
+    def inv(e, done):
+        A, ws, cur = e.self, e.ws.term, e.current.term
+        if level == '1.0': ny = lambda nxt: Exists([a], And(A.T[cur, a, nxt], Or(a == EPS, Not(done[a]))))
+        elif level == '1.0.0': ny = lambda nxt: Exists([a], And(A.T[cur, a, nxt], Or(a == EPS, And(Not(e.get('$done1.0')[a]), Or(a != e.symbol.term, Not(done[nxt]))))))
+        else: ny = lambda nxt: And(A.T[cur, EPS, nxt], Not(done[nxt]))
+        return And(ForAll([q, vis_], e.to_process[item(q, vis_)] >= 0), Or(pending(ws, e.to_process), hold(e, ny)))
+    return inv
+W.contract(Contract('ENFA.is_acyclic#exhaustive', [('self', ENFA), ('ws', SeqSt_)], ret=TBool, requires=lambda o: And(WF(o.self), lasso(o.self, o.ws.term)),
+    ensures=lambda o, r, n: Not(r.term), dead_returns=(True,),
+    locals={'to_process': BagSV},
+    loop_post={'1.0.0': lambda e: [ForAll([q], Implies(e.self.T[e.current.term, e.symbol.term, q], Select(CallF(e.self.T.term, e.current.term, e.symbol.term), q))),
+                                   Or(pending(e.ws.term, e.to_process),
+                                      hold(e, lambda nxt: Exists([a], And(e.self.T[e.current.term, a, nxt], Or(a == EPS, And(Not(e.get('$done1.0')[a]), a != e.symbol.term))))))]},
+    entry_lemmas=lambda o: PSET_LEMMAS + [('the closing state of the walk is in the prefix before it', [PSET_DEF], Select(PSet(o.ws.term, Length(o.ws.term) - 1), o.ws.term[Length(o.ws.term) - 1])),
+                                          ('the states of the walk before the last one are pairwise different', [PSET_DEF], ForAll([m_], Implies(And(0 <= m_, m_ < Length(o.ws.term) - 1), Not(Select(PSet(o.ws.term, m_), o.ws.term[m_])))))],
+    at={'if current in visited': {'lemmas': lambda e: [Or(pending(e.ws.term, e.to_process),
+                                                          Exists([m_], And(0 <= m_, m_ <= Length(e.ws.term) - 1, e.current.term == e.ws.term[m_], e.visited.term == PSet(e.ws.term, m_))))]},
+        'visited.add(current)': {'lemmas': lambda e: [Or(pending(e.ws.term, e.to_process),
+                                                         Exists([m_], And(0 <= m_, m_ < Length(e.ws.term) - 1, e.current.term == e.ws.term[m_], e.visited.term == PSet(e.ws.term, m_))))]},
+        'for symbol in self._input_symbols': {'lemmas': lambda e: [Or(pending(e.ws.term, e.to_process),
+                                                                      hold(e, lambda nxt: Exists([a], e.self.T[e.current.term, a, nxt])))]}},
+    loops={'0': lambda e, done: And(ForAll([q, vis_], e.to_process[item(q, vis_)] >= 0), Implies(done[e.ws.term[0]], pending(e.ws.term, e.to_process))),
+           '1': lambda e, done: And(ForAll([q, vis_], e.to_process[item(q, vis_)] >= 0), pending(e.ws.term, e.to_process)),
+           '1.0': acy2('1.0'), '1.0.0': acy2('1.0.0'), '1.1': acy2('1.1')}))
+
 # ------------------------------------------------------------------ operator forms: one-line delegations with the postcondition (and ghosts) of the method they call
 def delegate(alias, to, **kw):
     c = W.contracts[to]
@@ -793,7 +843,7 @@ TARGETS.update({'NFA.accepts': (_PN, 'NondeterministicFiniteAutomaton.accepts'),
                 'DFA.accepts': (_PD, 'DeterministicFiniteAutomaton.accepts'), 'DFA.is_deterministic': (_PD, 'DeterministicFiniteAutomaton.is_deterministic')})
 TARGETS.update({f'ENFA.{m}': (_PF, f'FiniteAutomaton.{m}') for m in ['_get_next_states_from', '_get_reachable_states', '_get_states_leading_to_final']})
 TARGETS.update({'ENFA.to_fst': (_PF, 'FiniteAutomaton.to_fst')})
-TARGETS.update({'ENFA.is_acyclic': (_PF, 'FiniteAutomaton.is_acyclic'), 'ENFA.add_transitions': (_PF, 'FiniteAutomaton.add_transitions')})
+TARGETS.update({'ENFA.is_acyclic#exhaustive': (_PF, 'FiniteAutomaton.is_acyclic'), 'ENFA.is_acyclic': (_PF, 'FiniteAutomaton.is_acyclic'), 'ENFA.add_transitions': (_PF, 'FiniteAutomaton.add_transitions')})
 TARGETS.update({f'ENFA.{m}': (_P, f'EpsilonNFA.{m}') for m in ['__neg__', '__and__', '__sub__', '__invert__', '__copy__', '__bool__']})
 TARGETS.update({'DFA.copy': (_PD, 'DeterministicFiniteAutomaton.copy'), 'DFA.to_deterministic': (_PD, 'DeterministicFiniteAutomaton.to_deterministic'),
                 'NFA.to_deterministic': (_PN, 'NondeterministicFiniteAutomaton.to_deterministic')})
@@ -804,6 +854,9 @@ VERIFIED_ELSEWHERE = {'Namer.get_merged': 'contracts.fa_namer (StateNamer._get)'
 # ------------------------------------------------------------------ engine self-test (thorough tier): edits that must / must not break a proof
 _E = 'pyformlang/finite_automaton/epsilon_nfa.py'; _FA = 'pyformlang/finite_automaton/finite_automaton.py'
 SMOKE = [
+    ('ENFA.is_acyclic#exhaustive', _FA, "            for state in self(current, Epsilon()):\n                to_process.append((state, visited.copy()))\n        return True", "        return True", 'break'),
+    ('ENFA.is_acyclic#exhaustive', _FA, "                    to_process.append((state, visited.copy()))\n            # Epsilon", "                    to_process.append((state, set()))\n            # Epsilon", 'break'),
+    ('ENFA.is_acyclic#exhaustive', _FA, "            visited.add(current)\n", "", 'break'),
     ('ENFA.is_acyclic', _FA, "            if current in visited:\n                return False", "            if current not in visited:\n                return False", 'break'),
     ('ENFA.is_acyclic', _FA, "                    to_process.append((state, visited.copy()))\n            # Epsilon", "                    to_process.append((state, visited))\n            # Epsilon", 'break'),
     ('ENFA.eclose', _E, "                    to_process.append(conn_state)", "                    pass", 'break'),
